@@ -11,26 +11,33 @@ LABEL_RULES = [
     (r"Start\((\d+)\)", "enter:j{1}"),
     (r"Fin\((\d+)\)", "fin:j{1}"),
     (r"WorkerCS\((\d+)\)", "wcs:j{1}"),
+    (r"NilCS\((\d+)\)", "wcs:nil"),   # workers holding a nil job cannot be told apart (driver: wcs:nil, wcs:nil#2, ..)
     (r"CallWI", "call:wi"), (r"WICS", "grant:wi"), (r"CancelWI", "cancel:wi"), (r"FireErr", "errch"),
     (r"CallWS", "call:ws"), (r"WSCS", "grant:ws"), (r"CancelWS", "cancel:ws"),
     (r"(?:WIWake|WIWakeCtx|WIWakeErr|WSWake|WSWakeCtx)", None),
 ]
 # each set stays below the engine's 80000-state guard for graph dumps
-SCEN = {"quick": ["quick"], "thorough": ["quick", "thorough_a", "thorough_b", "thorough_c", "thorough_d"]}
+# quick_nil / thorough_e: nil jobs (started directly, in the constructor's list, in the backlog with jobs behind them)
+SCEN = {"quick": ["quick", "quick_nil"], "thorough": ["quick", "quick_nil", "thorough_a", "thorough_b", "thorough_c", "thorough_d", "thorough_e"]}
 BIG = ["big"]   # thorough: model checked only (graph too large to dump)
-KEYS = ("lim", "init", "prods", "wic", "wsc")
-XSCEN = {"quick": ["quick"], "thorough": ["quick", "thorough_a", "thorough_b", "thorough_c", "thorough_d", "big"]}   # X-level trace validation
+KEYS = ("lim", "init", "prods", "nils", "wic", "wsc")
+XSCEN = {"quick": ["quick", "quick_nil"], "thorough": ["quick", "quick_nil", "thorough_a", "thorough_b", "thorough_c", "thorough_d", "thorough_e", "big"]}   # X-level trace validation
 
 
 def scen_path(n):
     return os.path.join(vlib.VERIF, "specs", "conc", "scenarios", n + ".json")
 
 
+def scen_of(s):
+    """the driver's scenario (nils: the jobs handed over as nil funcs; absent = none)"""
+    return {key: (s.get("nils", []) if key == "nils" else s[key]) for key in KEYS}
+
+
 def tla_scens(scens):
     tl = []
     for s in scens:
         prods = list(s["prods"]) + [[]] * (2 - len(s["prods"]))
-        tl.append(dict(lim=s["lim"], init=s["init"], prods=prods,
+        tl.append(dict(lim=s["lim"], init=s["init"], prods=prods, nils=s.get("nils", []),
                        wic=dict(on=bool(s["wic"]["on"]), errch=s["wic"]["errch"], cancel=bool(s["wic"]["cancel"])),
                        wsc=dict(on=bool(s["wsc"]["on"]), script=s["wsc"]["script"], cancel=bool(s["wsc"]["cancel"]))))
     return tl
@@ -47,7 +54,7 @@ def mk_factory(scens):
             cfg += ["VIEW xvars"]
         cfg += ["CONSTANTS", " Scens <- ScS", " EagerWake = %s" % ("TRUE" if graph else "FALSE")]
         if not graph:
-            cfg += ["INVARIANTS TypeOK Counter QueueAgree Full Bounded WIIdleWakes DoneAllRan QuietInv ModelSafe"]
+            cfg += ["INVARIANTS TypeOK Counter QueueAgree Full Bounded WIIdleWakes DoneAllRan NilAgree IdleAllTaken QuietInv ModelSafe"]
         vlib.write_mc(d, "MC", "ConcQueue", ["ScS == " + vlib.json2tla(tl)], cfg)
     return mk
 
@@ -69,7 +76,7 @@ def models(wd, tier, seed):
             if not p or not p[0].startswith("scen:"):
                 continue
             k = int(p[0][5:]) - 1
-            sc = {key: scens[k][key] for key in KEYS}
+            sc = scen_of(scens[k])
             scheds.append({"name": "%s/%s/%d" % (name, scens[k]["name"], i), "scenario": sc, "labels": p[1:]})
         names += ["%s/%s" % (name, s["name"]) for s in scens]
     return states, trans, scheds, notes, names
@@ -79,10 +86,12 @@ FAM = dict(driver="conc", specdirs=["conc", "lib"], monitor="ConcQueuePTrace", p
            n_random={"quick": 5000, "thorough": 250000},
            modes={"quick": [("burst", "burst", 3000, 4)], "thorough": [("burst", "burst", 100000, 4)]},
            x_specs=["conc/ConcQueue.tla"], p_monitor="conc/ConcQueueP.tla",
-           advisory=lambda wd, binp, seed, tier: x_conformance(wd, binp, seed, XSCEN[tier], nrand=100 if tier == "quick" else 1000),
+           advisory=lambda wd, binp, seed, tier: x_conformance(wd, binp, seed, XSCEN[tier], nrand=70 if tier == "quick" else 1000),
            assumptions=["ConcQueueP encodes the statement as read in its header (I1-I5): enqueue order = real-time order of Enqueue calls; "
                         "pairs of an unlimited queue unconstrained; no deadline for starting a job while others run; "
                         "only WaitIdle's nil result is constrained",
+                        "nil jobs (I6): the statement is silent; nothing is demanded about a nil job itself (never lost, never the reason "
+                        "for IdleEarly, transparent for the n=1 order, not counted as executing), everything else is demanded unchanged",
                         "the linkedlist is the sequential FIFO of C20 (Push tail / Pop head)"])
 
 
@@ -104,7 +113,7 @@ def x_conformance(wd, binp, seed, names, nrand=100):
         if not os.path.exists(scen_path(name)):
             continue
         scens = json.load(open(scen_path(name)))["scens"]
-        scheds = [{"name": "%s/%s/x%d" % (name, s["name"], i), "scenario": dict({key: s[key] for key in KEYS}, xk=k + 1), "labels": []}
+        scheds = [{"name": "%s/%s/x%d" % (name, s["name"], i), "scenario": dict(scen_of(s), xk=k + 1), "labels": []}
                   for k, s in enumerate(scens) for i in range(nrand)]
         sf = os.path.join(wd, "x-%s-scheds.json" % name)
         json.dump(scheds, open(sf, "w"))
